@@ -173,7 +173,8 @@ class DistScenario(Scenario):
                 ex = list(ex_conds) + [v == 0 for _, v in ex_lin]
                 # lenient variant for invariant directions: (w.dir)^2 <= 2*delta*d  (or parallel residual)
                 tl = list(tl_conds) + [v * v <= 2.0 * delta * d + delta * delta for _, v in tl_lin]
-                ob.require("optimal_wrt_" + label, exact=AND(*ex) if ex else True, tol=AND(*tl) if tl else True)
+                ob.require("optimal_wrt_" + label, exact=AND(*ex) if ex else True,
+                           tol=OR(d <= delta, AND(*tl)) if tl else True)
 
     def describe(self):
         return {}
